@@ -132,6 +132,14 @@ Theorem C06_spelling_same_canonical_directory :
 Proof. exact WalkProofs6.absolute_same_canon. Qed.
 Print Assumptions C06_spelling_same_canonical_directory.
 
+(* `..` is physical, in general: after a path that resolves (through whatever links) to the directory q, `..` is the parent of q *)
+Theorem C06_spelling_dotdot_physical :
+  forall (t : WalkModel.tree) raw q,
+    WalkModel.canon t raw = Some q -> WalkProofs6.dir_at t q ->
+    WalkModel.canon t (raw ++ [WalkModel.dotdot]) = Some (removelast q).
+Proof. exact WalkProofs6.canon_app_dotdot. Qed.
+Print Assumptions C06_spelling_dotdot_physical.
+
 (* Non-vacuity and the physical reading of `..`: /t/lnk -> /far/away/inner, so t/lnk/.. is /far/away, not /t *)
 Example C06_spelling_inhabited :
   WalkModel.canon WalkProofs6.s6tree [WalkProofs6.n_t; WalkProofs6.n_lnk; WalkModel.dotdot] = Some [WalkProofs6.n_far; WalkProofs6.n_away] /\
